@@ -471,7 +471,7 @@ theorem C01_text_off0 {c k : Nat} (hc : r.ind = some c) (hk : k < 4) {x : Str} (
     TextEncodes r (x ++ ',' :: regName k) (.idx (.off k 0 false 0)) := by
   have hfe := frontEnd_offset hr hx (by omega) hk
   rw [h0] at hfe
-  refine textEncodes_of hfe (encodes_congr (translateOperand_zero_val _ r (Or.inl rfl) rfl) ?_)
+  refine textEncodes_of hfe (encodes_congr (translateOperand_zero_val _ r (Or.inl rfl) rfl rfl (regName_plain k hk).noPcr) ?_)
   exact C01_partial hr.mem hr.notPseudo (.zero rfl hc rfl hk rfl)
 
 /-- `[0,R]`: assembled exactly like `[,R]` -/
@@ -480,10 +480,144 @@ theorem C01_text_ind_off0 {c k : Nat} (hc : r.ind = some c) (hk : k < 4) {x : St
     TextEncodes r ('[' :: ((x ++ ',' :: regName k) ++ [']'])) (.idx (.off k 0 true 0)) := by
   have hfe := frontEnd_ind_offset hr hx (by omega) hk
   rw [h0] at hfe
-  refine textEncodes_of hfe (encodes_congr (translateOperand_zero_val _ r (Or.inr rfl) rfl) ?_)
+  refine textEncodes_of hfe (encodes_congr (translateOperand_zero_val _ r (Or.inr rfl) rfl rfl (regName_plain k hk).noPcr) ?_)
   exact C01_partial hr.mem hr.notPseudo (.indZero ⟨rfl, rfl, rfl⟩ hc rfl hk rfl)
 
 end families
+
+section pcrFamilies
+variable {r : InstrRow} (hr : PlainRow r)
+include hr
+
+/-! ## 7. numeric offsets from the program counter: `n,PCR  -n,PCR  [n,PCR]  [-n,PCR]` (repair A9)
+
+The offset is the number itself.  A non-negative literal on an `is_16_bit` row carries the row's size hint and is in
+EXTENDED mode, so it always takes the 16-bit form there (`LDX 5,PCR` is `AE 8D 00 05`); a negative literal never is
+(`LDX -5,PCR` is `AE 8C FB`). -/
+
+theorem frontEnd_pcr {x : Str} (hx : IsDecLit x) (hv : parseBase 10 x < 65536) :
+    frontEnd r (x ++ ',' :: str "PCR") =
+      .ok { kind := .indexed, text := x ++ ',' :: str "PCR", value := .leftRight x (str "PCR") .extended,
+            left := .val (.numeric (parseBase 10 x)
+              (if r.is16Bit then some 4 else if parseBase 10 x < 256 then some 2 else none)
+              (if r.is16Bit then .extended else if parseBase 10 x < 256 then .direct else .extended) false),
+            right := some (str "PCR") } :=
+  frontEnd_indexed_val hr.flags (operandHead_dec hx _) (splitExpr_word_comma x _ (decLit_word hx))
+    (decLit_no_comma hx) (by decide) hx.1 (isABD_dec hx) (resolveLeft_dec hr.flags.notStr hx hv [])
+
+theorem frontEnd_ind_pcr {x : Str} (hx : IsDecLit x) (hv : parseBase 10 x < 65536) :
+    frontEnd r ('[' :: ((x ++ ',' :: str "PCR") ++ [']'])) =
+      .ok { kind := .extIndirect, text := '[' :: ((x ++ ',' :: str "PCR") ++ [']']),
+            value := .leftRight x (str "PCR") .extended,
+            left := .val (.numeric (parseBase 10 x)
+              (if r.is16Bit then some 4 else if parseBase 10 x < 256 then some 2 else none)
+              (if r.is16Bit then .extended else if parseBase 10 x < 256 then .direct else .extended) false),
+            right := some (str "PCR") } :=
+  frontEnd_bracket_val hr.flags (operandHead_dec hx _) (splitExpr_word_comma x _ (decLit_word hx))
+    (decLit_no_comma hx) (by decide) hx.1 (isABD_dec hx) (resolveLeft_dec hr.flags.notStr hx hv [])
+
+theorem frontEnd_neg_pcr {x : Str} (hx : IsDecLit x) (hv : parseBase 10 x ≤ 32768) :
+    frontEnd r (('-' :: x) ++ ',' :: str "PCR") =
+      .ok { kind := .indexed, text := ('-' :: x) ++ ',' :: str "PCR", value := .leftRight ('-' :: x) (str "PCR") .extended,
+            left := .val (.numeric (parseBase 10 x) (if r.is16Bit then some 4 else none) .none true),
+            right := some (str "PCR") } :=
+  frontEnd_indexed_val hr.flags (operandHead_minus _) (splitExpr_head_nonword '-' _ (by decide) (by decide))
+    (by have := decLit_no_comma hx; simpa using this) (by decide) (by simp) (isABD_neg x)
+    (resolveLeft_neg hr.flags.notStr hx hv [])
+
+theorem frontEnd_ind_neg_pcr {x : Str} (hx : IsDecLit x) (hv : parseBase 10 x ≤ 32768) :
+    frontEnd r ('[' :: ((('-' :: x) ++ ',' :: str "PCR") ++ [']'])) =
+      .ok { kind := .extIndirect, text := '[' :: ((('-' :: x) ++ ',' :: str "PCR") ++ [']']),
+            value := .leftRight ('-' :: x) (str "PCR") .extended,
+            left := .val (.numeric (parseBase 10 x) (if r.is16Bit then some 4 else none) .none true),
+            right := some (str "PCR") } :=
+  frontEnd_bracket_val hr.flags (operandHead_minus _) (splitExpr_head_nonword '-' _ (by decide) (by decide))
+    (by have := decLit_no_comma hx; simpa using this) (by decide) (by simp) (isABD_neg x)
+    (resolveLeft_neg hr.flags.notStr hx hv [])
+
+omit hr in
+theorem mode_ne_extended {n : Nat} (h16 : r.is16Bit = false) (hn : n < 256) :
+    (if r.is16Bit then Mode.extended else if n < 256 then .direct else .extended) ≠ .extended := by
+  simp [h16, hn]
+
+/-- `n,PCR`, 0 ≤ n ≤ 127, on a row without `is_16_bit`: the 8-bit form (`LDA 5,PCR` is `A6 8C 05`, `LDA 0,PCR` is
+`A6 8C 00`) -/
+theorem C01_text_pcr8 {c : Nat} (hc : r.ind = some c) (h16 : r.is16Bit = false) {x : Str} (hx : IsDecLit x)
+    (h2 : parseBase 10 x ≤ 127) :
+    TextEncodes r (x ++ ',' :: str "PCR") (.idx (.pcr (parseBase 10 x) false 8)) := by
+  have := textEncodes_of_region hr (frontEnd_pcr hr hx (by omega))
+    (.pcr8 rfl hc rfl rfl (mode_ne_extended h16 (by omega)) (by simp [signedVal] <;> omega) (by simp [signedVal] <;> omega))
+  simpa [signedVal] using this
+
+/-- `n,PCR`, 128 ≤ n ≤ 65535, or any n ≤ 65535 on an `is_16_bit` row: the 16-bit form (`LDA 128,PCR` is
+`A6 8D 00 80`; formerly `8C 80`, read back as −128) -/
+theorem C01_text_pcr16 {c : Nat} (hc : r.ind = some c) {x : Str} (hx : IsDecLit x)
+    (h1 : r.is16Bit = true ∨ 128 ≤ parseBase 10 x) (h2 : parseBase 10 x < 65536) :
+    TextEncodes r (x ++ ',' :: str "PCR") (.idx (.pcr (sext (parseBase 10 x) 16) false 16)) := by
+  have hw : (if r.is16Bit then Mode.extended else if parseBase 10 x < 256 then .direct else .extended) = .extended ∨
+      ¬ (-128 ≤ signedVal (parseBase 10 x) false ∧ signedVal (parseBase 10 x) false ≤ 127) := by
+    rcases h1 with h | h
+    · left; simp [h]
+    · right; simp [signedVal]; omega
+  have := textEncodes_of_region hr (frontEnd_pcr hr hx h2)
+    (.pcr16 rfl hc rfl rfl hw (by simp [signedVal] <;> omega) (by simp [signedVal] <;> omega))
+  rwa [twos16_pos h2] at this
+
+/-- `-n,PCR`, 0 ≤ n ≤ 128, EVERY row: the 8-bit form with the two's complement byte -/
+theorem C01_text_pcr8_neg {c : Nat} (hc : r.ind = some c) {x : Str} (hx : IsDecLit x) (h2 : parseBase 10 x ≤ 128) :
+    TextEncodes r (('-' :: x) ++ ',' :: str "PCR") (.idx (.pcr (-(parseBase 10 x : Int)) false 8)) := by
+  have := textEncodes_of_region hr (frontEnd_neg_pcr hr hx (by omega))
+    (.pcr8 rfl hc rfl rfl (by decide) (by simp [signedVal] <;> omega) (by simp [signedVal] <;> omega))
+  simpa [signedVal] using this
+
+/-- `-n,PCR`, 129 ≤ n ≤ 32768: the 16-bit form with the two's complement word -/
+theorem C01_text_pcr16_neg {c : Nat} (hc : r.ind = some c) {x : Str} (hx : IsDecLit x)
+    (h1 : 129 ≤ parseBase 10 x) (h2 : parseBase 10 x ≤ 32768) :
+    TextEncodes r (('-' :: x) ++ ',' :: str "PCR") (.idx (.pcr (-(parseBase 10 x : Int)) false 16)) := by
+  have := textEncodes_of_region hr (frontEnd_neg_pcr hr hx h2)
+    (.pcr16 rfl hc rfl rfl (Or.inr (by simp [signedVal]; omega)) (by simp [signedVal] <;> omega)
+      (by simp [signedVal] <;> omega))
+  rwa [twos16_neg (by omega) h2, sext16_neg (by omega) h2] at this
+
+/-- `[n,PCR]`, 8-bit form -/
+theorem C01_text_ind_pcr8 {c : Nat} (hc : r.ind = some c) (h16 : r.is16Bit = false) {x : Str} (hx : IsDecLit x)
+    (h2 : parseBase 10 x ≤ 127) :
+    TextEncodes r ('[' :: ((x ++ ',' :: str "PCR") ++ [']'])) (.idx (.pcr (parseBase 10 x) true 8)) := by
+  have := textEncodes_of_region hr (frontEnd_ind_pcr hr hx (by omega))
+    (.indPcr8 ⟨rfl, rfl, rfl⟩ hc rfl rfl (mode_ne_extended h16 (by omega)) (by simp [signedVal] <;> omega)
+      (by simp [signedVal] <;> omega))
+  simpa [signedVal] using this
+
+/-- `[n,PCR]`, 16-bit form -/
+theorem C01_text_ind_pcr16 {c : Nat} (hc : r.ind = some c) {x : Str} (hx : IsDecLit x)
+    (h1 : r.is16Bit = true ∨ 128 ≤ parseBase 10 x) (h2 : parseBase 10 x < 65536) :
+    TextEncodes r ('[' :: ((x ++ ',' :: str "PCR") ++ [']'])) (.idx (.pcr (sext (parseBase 10 x) 16) true 16)) := by
+  have hw : (if r.is16Bit then Mode.extended else if parseBase 10 x < 256 then .direct else .extended) = .extended ∨
+      ¬ (-128 ≤ signedVal (parseBase 10 x) false ∧ signedVal (parseBase 10 x) false ≤ 127) := by
+    rcases h1 with h | h
+    · left; simp [h]
+    · right; simp [signedVal]; omega
+  have := textEncodes_of_region hr (frontEnd_ind_pcr hr hx h2)
+    (.indPcr16 ⟨rfl, rfl, rfl⟩ hc rfl rfl hw (by simp [signedVal] <;> omega) (by simp [signedVal] <;> omega))
+  rwa [twos16_pos h2] at this
+
+/-- `[-n,PCR]`, 8-bit form -/
+theorem C01_text_ind_pcr8_neg {c : Nat} (hc : r.ind = some c) {x : Str} (hx : IsDecLit x) (h2 : parseBase 10 x ≤ 128) :
+    TextEncodes r ('[' :: ((('-' :: x) ++ ',' :: str "PCR") ++ [']'])) (.idx (.pcr (-(parseBase 10 x : Int)) true 8)) := by
+  have := textEncodes_of_region hr (frontEnd_ind_neg_pcr hr hx (by omega))
+    (.indPcr8 ⟨rfl, rfl, rfl⟩ hc rfl rfl (by decide) (by simp [signedVal] <;> omega) (by simp [signedVal] <;> omega))
+  simpa [signedVal] using this
+
+/-- `[-n,PCR]`, 16-bit form -/
+theorem C01_text_ind_pcr16_neg {c : Nat} (hc : r.ind = some c) {x : Str} (hx : IsDecLit x)
+    (h1 : 129 ≤ parseBase 10 x) (h2 : parseBase 10 x ≤ 32768) :
+    TextEncodes r ('[' :: ((('-' :: x) ++ ',' :: str "PCR") ++ [']'])) (.idx (.pcr (-(parseBase 10 x : Int)) true 16)) := by
+  have := textEncodes_of_region hr (frontEnd_ind_neg_pcr hr hx h2)
+    (.indPcr16 ⟨rfl, rfl, rfl⟩ hc rfl rfl (Or.inr (by simp [signedVal]; omega)) (by simp [signedVal] <;> omega)
+      (by simp [signedVal] <;> omega))
+  rwa [twos16_neg (by omega) h2, sext16_neg (by omega) h2] at this
+
+end pcrFamilies
 
 /-! ## the proved text region -/
 
@@ -491,7 +625,8 @@ end families
 A3–A7 nothing of the literal spelling families is excluded any more: 8-bit offsets on `is_16_bit` rows, negative
 offsets of every width, `[$hh]`, `>$hh`, `<n` and small negative 16-bit immediates are all inside; what does not fit
 its field (`#256`, `#-129` on an 8-bit row, `<256`) is REJECTED (`C01_text_*_rejected`).  Not literal spellings of
-this file: `S` in register lists (A10), numeric `n,PCR` (A9), expressions (C04). -/
+this file: register lists (C01 `list`, `C01_push_pull`), expressions (C04).  Numeric `n,PCR` (repair A9) is inside
+since batch B2: the `pcr*` constructors. -/
 inductive TextRegion (r : InstrRow) : Str → Spec.MC6809.Operand → Prop
   | inherent {c : Nat} : r.inh = some c → TextRegion r [] .none
   | imm8Dec {c : Nat} {x : Str} : r.imm = some c → r.is16Bit = false → IsDecLit x → parseBase 10 x < 256 →
@@ -572,6 +707,23 @@ inductive TextRegion (r : InstrRow) : Str → Spec.MC6809.Operand → Prop
   | indOff16neg {c k : Nat} {x : Str} : r.ind = some c → k < 4 → IsDecLit x → 129 ≤ parseBase 10 x →
       parseBase 10 x ≤ 32768 →
       TextRegion r ('[' :: ((('-' :: x) ++ ',' :: regName k) ++ [']'])) (.idx (.off k (-(parseBase 10 x : Int)) true 16))
+  | pcr8 {c : Nat} {x : Str} : r.ind = some c → r.is16Bit = false → IsDecLit x → parseBase 10 x ≤ 127 →
+      TextRegion r (x ++ ',' :: str "PCR") (.idx (.pcr (parseBase 10 x) false 8))
+  | pcr16 {c : Nat} {x : Str} : r.ind = some c → IsDecLit x → (r.is16Bit = true ∨ 128 ≤ parseBase 10 x) →
+      parseBase 10 x < 65536 → TextRegion r (x ++ ',' :: str "PCR") (.idx (.pcr (sext (parseBase 10 x) 16) false 16))
+  | pcr8neg {c : Nat} {x : Str} : r.ind = some c → IsDecLit x → parseBase 10 x ≤ 128 →
+      TextRegion r (('-' :: x) ++ ',' :: str "PCR") (.idx (.pcr (-(parseBase 10 x : Int)) false 8))
+  | pcr16neg {c : Nat} {x : Str} : r.ind = some c → IsDecLit x → 129 ≤ parseBase 10 x → parseBase 10 x ≤ 32768 →
+      TextRegion r (('-' :: x) ++ ',' :: str "PCR") (.idx (.pcr (-(parseBase 10 x : Int)) false 16))
+  | indPcr8 {c : Nat} {x : Str} : r.ind = some c → r.is16Bit = false → IsDecLit x → parseBase 10 x ≤ 127 →
+      TextRegion r ('[' :: ((x ++ ',' :: str "PCR") ++ [']'])) (.idx (.pcr (parseBase 10 x) true 8))
+  | indPcr16 {c : Nat} {x : Str} : r.ind = some c → IsDecLit x → (r.is16Bit = true ∨ 128 ≤ parseBase 10 x) →
+      parseBase 10 x < 65536 →
+      TextRegion r ('[' :: ((x ++ ',' :: str "PCR") ++ [']'])) (.idx (.pcr (sext (parseBase 10 x) 16) true 16))
+  | indPcr8neg {c : Nat} {x : Str} : r.ind = some c → IsDecLit x → parseBase 10 x ≤ 128 →
+      TextRegion r ('[' :: ((('-' :: x) ++ ',' :: str "PCR") ++ [']'])) (.idx (.pcr (-(parseBase 10 x : Int)) true 8))
+  | indPcr16neg {c : Nat} {x : Str} : r.ind = some c → IsDecLit x → 129 ≤ parseBase 10 x → parseBase 10 x ≤ 32768 →
+      TextRegion r ('[' :: ((('-' :: x) ++ ',' :: str "PCR") ++ [']'])) (.idx (.pcr (-(parseBase 10 x : Int)) true 16))
 
 /-- C01 (ii) from source text, on the proved text region: for every ordinary machine-instruction row and every
 operand text of the region, `encodeText` gives `(size, bytes)`, `bytes.length = size`, and the datasheet decoder
@@ -619,6 +771,14 @@ theorem C01_text_partial {r : InstrRow} (hr : PlainRow r) {text : Str} {x : Spec
   | indOff8neg hc hk hx h1 h2 => exact C01_text_ind_off8_neg hr hc hk hx h1 h2
   | indOff16 hc hk hx h1 h2 => exact C01_text_ind_off16 hr hc hk hx h1 h2
   | indOff16neg hc hk hx h1 h2 => exact C01_text_ind_off16_neg hr hc hk hx h1 h2
+  | pcr8 hc h16 hx h2 => exact C01_text_pcr8 hr hc h16 hx h2
+  | pcr16 hc hx h1 h2 => exact C01_text_pcr16 hr hc hx h1 h2
+  | pcr8neg hc hx h2 => exact C01_text_pcr8_neg hr hc hx h2
+  | pcr16neg hc hx h1 h2 => exact C01_text_pcr16_neg hr hc hx h1 h2
+  | indPcr8 hc h16 hx h2 => exact C01_text_ind_pcr8 hr hc h16 hx h2
+  | indPcr16 hc hx h1 h2 => exact C01_text_ind_pcr16 hr hc hx h1 h2
+  | indPcr8neg hc hx h2 => exact C01_text_ind_pcr8_neg hr hc hx h2
+  | indPcr16neg hc hx h1 h2 => exact C01_text_ind_pcr16_neg hr hc hx h1 h2
 
 /-! ## the renderings: ALL values in range
 
@@ -761,6 +921,90 @@ theorem C01_text_rendered {r : InstrRow} (hr : PlainRow r) :
       have := C01_text_ind_off16_neg hr hc hk (hd n) (by rw [pd]; exact h1) (by rw [pd]; exact h2)
       rwa [pd] at this
 
+/-- Python's `"{}".format(n)` of an int -/
+def decInt (n : Int) : Str := if n < 0 then '-' :: decStr n.natAbs else decStr n.natAbs
+
+/-- the width the assembler chooses for the numeric PC offset `n` on row `r` -/
+def pcrWidth (r : InstrRow) (n : Int) : Nat :=
+  if -128 ≤ n ∧ n ≤ 127 ∧ (r.is16Bit = false ∨ n < 0) then 8 else 16
+
+/-- the offset the datasheet decoder reads: `n` itself in the 8-bit form; in the 16-bit form the two-byte field
+sign-extended (so `n` for −32768 ≤ n ≤ 32767, and `n − 65536` for the unsigned spellings 32768..65535) -/
+def pcrOffset (r : InstrRow) (n : Int) : Int := if pcrWidth r n = 8 then n else sext (twos n 16) 16
+
+theorem pcrOffset_eq (r : InstrRow) {n : Int} (h1 : -32768 ≤ n) (h2 : n ≤ 32767) : pcrOffset r n = n := by
+  unfold pcrOffset
+  split
+  · rfl
+  · simp only [sext, twos]; omega
+
+/-- **numeric `n,PCR` and `[n,PCR]`, EVERY n in −32768..65535** (Python's rendering of `n`): the bytes decode as a
+PC-relative operand with offset `n`, in the 8-bit form iff −128 ≤ n ≤ 127 and the literal is not in extended mode
+(i.e. the row is not `is_16_bit`, or `n` is negative) -/
+theorem C01_text_pcr_rendered {r : InstrRow} (hr : PlainRow r) {c : Nat} (hc : r.ind = some c) (n : Int)
+    (h1 : -32768 ≤ n) (h2 : n ≤ 65535) :
+    TextEncodes r (decInt n ++ ',' :: str "PCR") (.idx (.pcr (pcrOffset r n) false (pcrWidth r n))) ∧
+    TextEncodes r ('[' :: ((decInt n ++ ',' :: str "PCR") ++ [']'])) (.idx (.pcr (pcrOffset r n) true (pcrWidth r n))) := by
+  have hd : ∀ n, IsDecLit (decStr n) := isDecLit_decStr
+  have pd : ∀ n, parseBase 10 (decStr n) = n := parseBase_decStr
+  by_cases hn : n < 0
+  · obtain ⟨k, rfl⟩ : ∃ k : Nat, n = -(k : Int) := ⟨n.natAbs, by omega⟩
+    have hk : (-(k : Int)).natAbs = k := by omega
+    simp only [decInt, hn, if_true, hk]
+    by_cases h8 : k ≤ 128
+    · have hw : pcrWidth r (-(k : Int)) = 8 := by
+        unfold pcrWidth; rw [if_pos ⟨by omega, by omega, Or.inr hn⟩]
+      have ho : pcrOffset r (-(k : Int)) = -(k : Int) := by simp [pcrOffset, hw]
+      rw [hw, ho]
+      have a := C01_text_pcr8_neg hr hc (hd k) (by rw [pd]; exact h8)
+      have b := C01_text_ind_pcr8_neg hr hc (hd k) (by rw [pd]; exact h8)
+      rw [pd] at a b
+      exact ⟨a, b⟩
+    · have hw : pcrWidth r (-(k : Int)) = 16 := by
+        unfold pcrWidth; rw [if_neg (by omega)]
+      have ho : pcrOffset r (-(k : Int)) = -(k : Int) := pcrOffset_eq r (by omega) (by omega)
+      rw [hw, ho]
+      have a := C01_text_pcr16_neg hr hc (hd k) (by rw [pd]; omega) (by rw [pd]; omega)
+      have b := C01_text_ind_pcr16_neg hr hc (hd k) (by rw [pd]; omega) (by rw [pd]; omega)
+      rw [pd] at a b
+      exact ⟨a, b⟩
+  · obtain ⟨k, rfl⟩ : ∃ k : Nat, n = (k : Int) := ⟨n.natAbs, by omega⟩
+    have hk : ((k : Int)).natAbs = k := by omega
+    simp only [decInt, hn, if_false, hk]
+    by_cases h8 : k ≤ 127 ∧ r.is16Bit = false
+    · have hw : pcrWidth r (k : Int) = 8 := by
+        unfold pcrWidth; rw [if_pos ⟨by omega, by omega, Or.inl h8.2⟩]
+      have ho : pcrOffset r (k : Int) = (k : Int) := by simp [pcrOffset, hw]
+      rw [hw, ho]
+      have a := C01_text_pcr8 hr hc h8.2 (hd k) (by rw [pd]; exact h8.1)
+      have b := C01_text_ind_pcr8 hr hc h8.2 (hd k) (by rw [pd]; exact h8.1)
+      rw [pd] at a b
+      exact ⟨a, b⟩
+    · have hcase : r.is16Bit = true ∨ 128 ≤ k := by
+        cases h : r.is16Bit
+        · right
+          have : ¬ k ≤ 127 := fun hle => h8 ⟨hle, h⟩
+          omega
+        · left; rfl
+      have hw : pcrWidth r (k : Int) = 16 := by
+        unfold pcrWidth
+        rw [if_neg]
+        rintro ⟨_, hle, h | h⟩
+        · rcases hcase with h' | h'
+          · rw [h] at h'; cases h'
+          · omega
+        · omega
+      have ho : pcrOffset r (k : Int) = sext k 16 := by
+        simp only [pcrOffset, hw]
+        have : twos (k : Int) 16 = k := by simp only [twos]; omega
+        simp [this]
+      rw [hw, ho]
+      have a := C01_text_pcr16 hr hc (hd k) (by rw [pd]; exact hcase) (by rw [pd]; omega)
+      have b := C01_text_ind_pcr16 hr hc (hd k) (by rw [pd]; exact hcase) (by rw [pd]; omega)
+      rw [pd] at a b
+      exact ⟨a, b⟩
+
+
 /-! ## the formerly excluded region A3, from text: general form -/
 
 /-- REPAIRED (formerly `C01_text_finding_16bit_row_offset`: `size + 1` bytes): for EVERY `is_16_bit` row, index
@@ -785,7 +1029,7 @@ theorem C01_text_finding_16bit_row_offset_fixed {r : InstrRow} (hr : PlainRow r)
   have hrr : o.right = some (regName k) := by rw [ho]
   obtain ⟨pkg, bytes, ht, _, hb, hlen, _⟩ := C01_partial hr.mem hr.notPseudo (Region.off8pos hk' hc hle h1 h2 hk hrr)
   have ht2 : translateOperand o r = translateIndexed o r := by simp [translateOperand, hk']
-  rw [translateIndexed_offset hc h0 hlt hle (by omega) hrr,
+  rw [translateIndexed_offset hc h0 hlt hle (by omega) hrr (regName_valid k),
     translateOffset_pos8 hc hlt (regName_plain k hk) (Or.inr h1) h2 (by rw [hpb]; omega), ht] at ht2
   have hsz : pkg.size = r.indSz + 1 := by injection ht2 with e; rw [e]
   obtain ⟨s', hf', hb'⟩ := hb (mkStmt r o pkg) rfl rfl rfl
@@ -886,6 +1130,7 @@ section axioms
 open CoCo.Props
 #print axioms C01_text_partial
 #print axioms C01_text_rendered
+#print axioms C01_text_pcr_rendered
 #print axioms C01_text_finding_16bit_row_offset_fixed
 #print axioms C01_text_imm8_dec_rejected
 #print axioms C01_text_dir_lt_rejected
